@@ -68,3 +68,11 @@ claim('C03',
       'midpoint-sum/integral equality numerically.',
       'Trusted: ast/CFG; the recognised source forms listed in dsa/rules/c03.py.',
       'DESIGN.md 4 C03')
+claim('C02',
+      'sibling data-flow rule at the three gap->duct transfer sites, CFG ordering of a step, provenance of the perimeter table, flow-sensitive independence (taint) of adiabatic branches',
+      'Static conformance to the structural necessary conditions of C02 in DESIGN 4.2: at every transfer site the duct receives map(h*T)/map(h) on the gap2duct map (never a bare map(T)); '
+      'a step advances all assemblies with their own index, then the gap from the mapped outer duct surface temperatures, then region changes; the gap energy equation and the heat tally '
+      'use the same perimeter table and adjacency, the tally uses old-level gap temperatures; adiabatic branches read nothing derived from gap arguments and the gap update is skipped by the '
+      'predicate that makes assemblies adiabatic. Does not decide discrete conservation across unequal meshes (C10) nor run-time adjacency symmetry (C09).',
+      'Trusted: ast/CFG; recognised source forms in dsa/rules/c02.py.',
+      'DESIGN.md 4 C02')
